@@ -211,7 +211,9 @@ class MBuild:
         self.roots = []
         self.lock = threading.RLock()
         self.root_finished = False
-        self.setup_fail = {}     # abs target -> exception instance (injected mkdir/rename fault)
+        self.setup_fail = {}     # key (abs target | sb key) -> exception instance, or
+        #                          (key, ordinal) -> exception for the n-th call with that key
+        self.call_counts = {}
         for a in reversed(ancestors(model.cache)):
             if a not in self.v:
                 self.v[a] = ('d',)
@@ -495,12 +497,15 @@ class MBuilder:
         try:
             try:
                 with mb.lock:
-                    if p in mb.setup_fail:
+                    nth = mb.call_counts.get(p, 0)
+                    mb.call_counts[p] = nth + 1
+                    inj = mb.setup_fail.get(p) or mb.setup_fail.get((p, nth))
+                    if inj is not None:
                         # an injected OS error while preparing this call: the call fails
                         # in setup; the duplicate/cache-file checks come first
                         if p in mb.claimed_files:
                             raise RuntimeError('Building the same file twice is not allowed')
-                        raise mb.setup_fail[p]
+                        raise inj
                     node.clobbered = mb.begin_file(p)
             except Exception:
                 node.raised = node.setup = True
@@ -553,6 +558,13 @@ class MBuilder:
                     node.raised = node.setup = True
                     raise RuntimeError('Calling the same subbuild function twice with the '
                                        'same arguments is not allowed')
+                nth = mb.call_counts.get(key, 0)
+                mb.call_counts[key] = nth + 1
+                inj = mb.setup_fail.get(key) or mb.setup_fail.get((key, nth))
+                if inj is not None:
+                    # injected OS error while re-registering a reused subtree
+                    node.raised = node.setup = True
+                    raise inj
                 mb.claimed_subs.add(key)
             sub = MBuilder(mb, node)
             try:
